@@ -373,6 +373,7 @@ struct Tool {
       rep.counters[std::string("probe.reader_") + fmt_names[plan.fmt >= 0 && plan.fmt < 5 ? plan.fmt : 0]] = 1;
     }
     if (plan.block > 0 && ref.files.size() > 2) rep.counters["probe.block_files_written"] = 1;
+    for (auto &kv : ref.files) if (kv.first.compare(0, 5, "A-A-A") == 0) rep.counters["probe.threebody_distribution_compared"] = 1;
     rep.counters["check.output_files_compared"] = (long)ref.files.size();
 
     js::Value hist = js::Value::obj();
